@@ -96,7 +96,8 @@ func runOne(ctx context.Context, sp solverSpec, file string, timeoutMs int) (sta
 	return
 }
 
-// Solve runs the query on all solvers; first definite answer wins.
+// Solve discharges one query. Phase 1: z3-new alone with a short timeout (it decides almost everything in
+// well under a second). Phase 2, if undecided: z3-new, cvc5 and z3 4.8 raced with the full timeout, fewer at a time.
 func Solve(text string, timeoutMs int) SolverResult {
 	querySeqMu.Lock()
 	querySeq++
@@ -107,9 +108,46 @@ func Solve(text string, timeoutMs int) SolverResult {
 		panic(err)
 	}
 	defer os.Remove(file)
-	solverSem <- struct{}{}
-	defer func() { <-solverSem }()
-
+	res := SolverResult{Status: "unknown", All: map[string]string{}}
+	var raws []string
+	record := func() {
+		statsMu.Lock()
+		s := solverStats[res.Solver]
+		if s == nil {
+			s = &struct {
+				N    int
+				Secs float64
+			}{}
+			solverStats[res.Solver] = s
+		}
+		s.N++
+		s.Secs += res.Seconds
+		statsMu.Unlock()
+	}
+	if !allSolvers {
+		t1 := 2500
+		if timeoutMs < t1 {
+			t1 = timeoutMs
+		}
+		solverSem <- struct{}{}
+		st, out, secs := runOne(context.Background(), solverSpecs[0], file, t1)
+		<-solverSem
+		res.All[solverSpecs[0].name] = st
+		raws = append(raws, solverSpecs[0].name+"(phase1): "+strings.TrimSpace(firstN(out, 200)))
+		if st == "unsat" || st == "sat" {
+			res.Status, res.Solver, res.Seconds = st, solverSpecs[0].name, secs
+			if st == "sat" {
+				if i := strings.Index(out, "\n"); i >= 0 {
+					res.Model = out[i+1:]
+				}
+			}
+			res.Raw = strings.Join(raws, " | ")
+			record()
+			return res
+		}
+	}
+	phase2Sem <- struct{}{}
+	defer func() { <-phase2Sem }()
 	ctx, cancel := context.WithCancel(context.Background())
 	defer cancel()
 	type ans struct {
@@ -125,8 +163,6 @@ func Solve(text string, timeoutMs int) SolverResult {
 			ch <- ans{st, out, sp.name, secs}
 		}()
 	}
-	res := SolverResult{Status: "unknown", All: map[string]string{}}
-	var raws []string
 	got := 0
 	for got < len(specs) {
 		a := <-ch
@@ -158,20 +194,11 @@ func Solve(text string, timeoutMs int) SolverResult {
 		}
 	}
 	res.Raw = strings.Join(raws, " | ")
-	statsMu.Lock()
-	s := solverStats[res.Solver]
-	if s == nil {
-		s = &struct {
-			N    int
-			Secs float64
-		}{}
-		solverStats[res.Solver] = s
-	}
-	s.N++
-	s.Secs += res.Seconds
-	statsMu.Unlock()
+	record()
 	return res
 }
+
+var phase2Sem = make(chan struct{}, 5)
 
 func firstN(s string, n int) string {
 	if len(s) > n {
